@@ -52,6 +52,18 @@ def check_graph(r, k, G, depths=(0, 1, 2, 3, 4), leaf_from=None):
         if st != 'ok' or U.rows(back) != G:
             r.v(pre + 'latter_map_to_accessor|round-trip-differs', 'graph', case, G if n <= 16 else None,
                 U.rows(back) if st == 'ok' and n <= 16 else repr(back)[:200])
+    # the order in which a latter map lists the successors of a vertex carries no meaning
+    if lm_ok and arcs:
+        for variant in ('reversed', 'rotated'):
+            lm2 = {}
+            for a, b in lm.items():
+                b = list(b)
+                lm2[a] = b[::-1] if variant == 'reversed' else b[1:] + b[:1]
+            st, back, _ = brun(dsw.latter_map_to_accessor, lm2, k)
+            r.trans += 1
+            if st != 'ok' or U.rows(back) != G:
+                r.v(pre + 'latter_map_to_accessor|depends-on-successor-order-in-the-map', 'graph', dict(case, variant=variant), G if n <= 16 else None,
+                    U.rows(back) if st == 'ok' and n <= 16 else repr(back)[:200])
     # accessor <-> matrix
     if k <= 3:
         st, mat, _ = brun(dsw.accessor_to_adjacency_matrix, acc)
